@@ -2655,3 +2655,838 @@ func ruleGraphemeWidth(c *Ctx, r *Rep) {
 		r.Undecided("width:census", token.NoPos, "the command no longer measures a display width with go-runewidth")
 	}
 }
+
+// ---------------------------------------------------------------------------------------------------------------------
+// R-C08-lexadvance: the lexer only steps over a byte it has seen.
+
+func init() {
+	reg(&Rule{ID: "R-C08-lexadvance", Props: []string{"C08", "C17", "C09"}, Floor: 30,
+		Doc: "every l.offset++ of the lexer is licensed by a test that the byte at the current position exists — l.peek() (or a variable holding it, with no movement since) compared equal to a non-zero constant, accepted by a character class that rejects 0, or an explicit end-of-input test — with no other movement between the test and the step; an advance by a decoded rune's size uses the size utf8 reported for the bytes at that position: a step taken at the end of input puts the offset beyond the source, and the next token or error slices out of range",
+		Run: ruleLexAdvance})
+	addDecided("C08", " The lexer steps only over bytes it has tested to exist (R-C08-lexadvance).")
+	addDecided("C17", " ParseError offsets cannot run beyond the source: every lexer step is licensed by a test of the byte stepped over (R-C08-lexadvance).")
+}
+
+// lexAdvanceReviewed: steps justified by index arithmetic the rule does not model.
+var lexAdvanceReviewed = map[string]string{
+	"lexer.scanString:l.offset += 2": "under i == l.offset+1 with i < len(l.source) (the loop bound of scanString): l.offset+2 <= len(l.source)",
+}
+
+func ruleLexAdvance(c *Ctx, r *Rep) {
+	info := c.Gojq.TypesInfo
+	// character classes that reject 0: func f(ch byte, …) bool whose value for ch = 0 is false whatever the other arguments
+	classes := map[*types.Func]bool{}
+	var rejectsZero func(fd *ast.FuncDecl, depth int) bool
+	var evalZero func(e ast.Expr, ch types.Object, depth int) (val, known bool) // value of e with ch = 0; unknown operands: known=false
+	evalZero = func(e ast.Expr, ch types.Object, depth int) (bool, bool) {
+		e = unparen(e)
+		switch x := e.(type) {
+		case *ast.BinaryExpr:
+			switch x.Op {
+			case token.LAND:
+				a, ak := evalZero(x.X, ch, depth)
+				b, bk := evalZero(x.Y, ch, depth)
+				if (ak && !a) || (bk && !b) {
+					return false, true
+				}
+				return a && b, ak && bk
+			case token.LOR:
+				a, ak := evalZero(x.X, ch, depth)
+				b, bk := evalZero(x.Y, ch, depth)
+				if (ak && a) || (bk && b) {
+					return true, true
+				}
+				return false, ak && bk
+			case token.EQL, token.NEQ, token.LSS, token.LEQ, token.GTR, token.GEQ:
+				get := func(e ast.Expr) (int64, bool) {
+					if id, ok := unparen(e).(*ast.Ident); ok && info.ObjectOf(id) == ch {
+						return 0, true
+					}
+					return constInt(info, e)
+				}
+				a, ak := get(x.X)
+				b, bk := get(x.Y)
+				if !ak || !bk {
+					return false, false
+				}
+				switch x.Op {
+				case token.EQL:
+					return a == b, true
+				case token.NEQ:
+					return a != b, true
+				case token.LSS:
+					return a < b, true
+				case token.LEQ:
+					return a <= b, true
+				case token.GTR:
+					return a > b, true
+				default:
+					return a >= b, true
+				}
+			}
+		case *ast.CallExpr:
+			if f, ok := callee(info, x).(*types.Func); ok && len(x.Args) >= 1 && depth > 0 {
+				if id, ok := unparen(x.Args[0]).(*ast.Ident); ok && info.ObjectOf(id) == ch {
+					if d := c.Decl(c.Gojq, f.Name()); d != nil && rejectsZero(d, depth-1) {
+						return false, true
+					}
+				}
+			}
+		}
+		return false, false
+	}
+	rejectsZero = func(fd *ast.FuncDecl, depth int) bool {
+		if fd.Recv != nil || fd.Type.Params == nil || len(fd.Type.Params.List) == 0 || len(fd.Type.Params.List[0].Names) == 0 {
+			return false
+		}
+		ch := info.Defs[fd.Type.Params.List[0].Names[0]]
+		if ch == nil {
+			return false
+		}
+		if b, ok := ch.Type().Underlying().(*types.Basic); !ok || b.Info()&types.IsInteger == 0 {
+			return false
+		}
+		if len(fd.Body.List) != 1 {
+			return false
+		}
+		switch st := fd.Body.List[0].(type) {
+		case *ast.ReturnStmt:
+			if len(st.Results) != 1 {
+				return false
+			}
+			v, known := evalZero(st.Results[0], ch, depth)
+			return known && !v
+		case *ast.SwitchStmt:
+			// switch ch { case c…: return true; default: return false }
+			id, ok := unparen(st.Tag).(*ast.Ident)
+			if !ok || info.ObjectOf(id) != ch {
+				return false
+			}
+			for _, s := range st.Body.List {
+				cc := s.(*ast.CaseClause)
+				retTrue := false
+				for _, b := range cc.Body {
+					if rs, ok := b.(*ast.ReturnStmt); ok && len(rs.Results) == 1 {
+						if id, ok := unparen(rs.Results[0]).(*ast.Ident); ok && id.Name == "true" {
+							retTrue = true
+						} else if !ok || id.Name != "false" {
+							return false
+						}
+					}
+				}
+				if retTrue {
+					if cc.List == nil {
+						return false
+					}
+					for _, e := range cc.List {
+						if v, ok := constInt(info, e); !ok || v == 0 {
+							return false
+						}
+					}
+				}
+			}
+			return true
+		}
+		return false
+	}
+	for _, fd := range c.Decls(c.Gojq) {
+		if c.PhysFile(fd.Pos()) == "lexer.go" && fd.Recv == nil && rejectsZero(fd, 2) {
+			if f, ok := info.Defs[fd.Name].(*types.Func); ok {
+				classes[f] = true
+			}
+		}
+	}
+	if len(classes) < 3 {
+		r.Undecided("lexadvance:classes", token.NoPos, "fewer than three character classes of the lexer reject the zero byte (%d): isIdent, isNumber, isHex, isWhite were expected", len(classes))
+		return
+	}
+	n := 0
+	for _, fd := range c.Decls(c.Gojq) {
+		if c.PhysFile(fd.Pos()) != "lexer.go" || fd.Recv == nil || len(fd.Recv.List) != 1 || len(fd.Recv.List[0].Names) != 1 {
+			continue
+		}
+		recv := info.Defs[fd.Recv.List[0].Names[0]]
+		if recv == nil {
+			continue
+		}
+		if nt := namedOf(recv.Type()); nt == nil || nt.Obj().Name() != "lexer" {
+			continue
+		}
+		isOffset := func(e ast.Expr) bool {
+			sel, ok := unparen(e).(*ast.SelectorExpr)
+			if !ok || sel.Sel.Name != "offset" {
+				return false
+			}
+			id, ok := unparen(sel.X).(*ast.Ident)
+			return ok && info.ObjectOf(id) == recv
+		}
+		isPeekCall := func(e ast.Expr) bool {
+			call, ok := unparen(e).(*ast.CallExpr)
+			if !ok || len(call.Args) != 0 {
+				return false
+			}
+			sel, ok := call.Fun.(*ast.SelectorExpr)
+			if !ok || sel.Sel.Name != "peek" {
+				return false
+			}
+			id, ok := unparen(sel.X).(*ast.Ident)
+			return ok && info.ObjectOf(id) == recv
+		}
+		// variables assigned from l.peek() somewhere, and those assignments
+		peekAssign := map[types.Object][]ast.Node{}
+		ast.Inspect(fd.Body, func(m ast.Node) bool {
+			if as, ok := m.(*ast.AssignStmt); ok && len(as.Lhs) == len(as.Rhs) {
+				for i, rhs := range as.Rhs {
+					if isPeekCall(rhs) {
+						if id, ok := as.Lhs[i].(*ast.Ident); ok {
+							if o := info.ObjectOf(id); o != nil {
+								peekAssign[o] = append(peekAssign[o], as)
+							}
+						}
+					}
+				}
+			}
+			return true
+		})
+		// statements that move the offset: writes of l.offset and calls of lexer methods other than peek
+		moves := func(nd ast.Node) bool {
+			found := false
+			ast.Inspect(nd, func(m ast.Node) bool {
+				switch x := m.(type) {
+				case *ast.FuncLit:
+					return false
+				case *ast.IncDecStmt:
+					if isOffset(x.X) {
+						found = true
+					}
+				case *ast.AssignStmt:
+					for _, l := range x.Lhs {
+						if isOffset(l) {
+							found = true
+						}
+					}
+				case *ast.CallExpr:
+					if sel, ok := x.Fun.(*ast.SelectorExpr); ok {
+						if id, ok := unparen(sel.X).(*ast.Ident); ok && info.ObjectOf(id) == recv && sel.Sel.Name != "peek" {
+							if _, ok := info.Uses[sel.Sel].(*types.Func); ok {
+								found = true
+							}
+						}
+					}
+				}
+				return true
+			})
+			return found
+		}
+		// licensing: the expression being true (pos) / false (!pos) implies that the byte at the current position exists;
+		// returns the peek variable it relies on (nil for a direct l.peek() or a length test)
+		type lic struct {
+			ok bool
+			v  types.Object
+		}
+		peekVal := func(e ast.Expr) (bool, types.Object) {
+			if isPeekCall(e) {
+				return true, nil
+			}
+			if id, ok := unparen(e).(*ast.Ident); ok {
+				if o := info.ObjectOf(id); o != nil && len(peekAssign[o]) > 0 {
+					return true, o
+				}
+			}
+			return false, nil
+		}
+		var licensed func(e ast.Expr, pos bool) lic
+		licensed = func(e ast.Expr, pos bool) lic {
+			e = unparen(e)
+			switch x := e.(type) {
+			case *ast.UnaryExpr:
+				if x.Op == token.NOT {
+					return licensed(x.X, !pos)
+				}
+			case *ast.BinaryExpr:
+				switch x.Op {
+				case token.LAND, token.LOR:
+					a, b := licensed(x.X, pos), licensed(x.Y, pos)
+					if (x.Op == token.LAND) == pos { // both hold: either suffices
+						if a.ok {
+							return a
+						}
+						return b
+					}
+					// one of them holds: both must license (and rely on the same variable, or none)
+					if a.ok && b.ok && (a.v == b.v || a.v == nil || b.v == nil) {
+						if a.v != nil {
+							return a
+						}
+						return b
+					}
+					return lic{}
+				case token.EQL, token.NEQ, token.GEQ, token.GTR, token.LSS, token.LEQ:
+					// len(l.source) == l.offset (false) / l.offset < len(l.source) (true)
+					lenSide := func(e ast.Expr) bool {
+						call, ok := unparen(e).(*ast.CallExpr)
+						return ok && len(call.Args) == 1 && types.ExprString(call.Fun) == "len" && strings.HasSuffix(types.ExprString(call.Args[0]), ".source")
+					}
+					if (lenSide(x.X) && isOffset(x.Y)) || (lenSide(x.Y) && isOffset(x.X)) {
+						offLeft := isOffset(x.X)
+						switch {
+						case x.Op == token.EQL && !pos, x.Op == token.NEQ && pos:
+							return lic{ok: true}
+						case offLeft && ((x.Op == token.LSS && pos) || (x.Op == token.GEQ && !pos)):
+							return lic{ok: true}
+						case !offLeft && ((x.Op == token.GTR && pos) || (x.Op == token.LEQ && !pos)):
+							return lic{ok: true}
+						}
+						return lic{}
+					}
+					for _, pr := range [][2]ast.Expr{{x.X, x.Y}, {x.Y, x.X}} {
+						isP, v := peekVal(pr[0])
+						if !isP {
+							continue
+						}
+						k, ok := constInt(info, pr[1])
+						if !ok {
+							continue
+						}
+						op := x.Op
+						if pr[0] == x.Y { // constant on the left: mirror
+							op = map[token.Token]token.Token{token.LSS: token.GTR, token.LEQ: token.GEQ, token.GTR: token.LSS, token.GEQ: token.LEQ, token.EQL: token.EQL, token.NEQ: token.NEQ}[op]
+						}
+						if !pos {
+							op = map[token.Token]token.Token{token.LSS: token.GEQ, token.LEQ: token.GTR, token.GTR: token.LEQ, token.GEQ: token.LSS, token.EQL: token.NEQ, token.NEQ: token.EQL}[op]
+						}
+						switch {
+						case op == token.EQL && k != 0, op == token.NEQ && k == 0, op == token.GTR && k >= 0, op == token.GEQ && k > 0:
+							return lic{ok: true, v: v}
+						}
+					}
+				}
+			case *ast.CallExpr:
+				if pos && len(x.Args) >= 1 {
+					if f, ok := callee(info, x).(*types.Func); ok && classes[f] {
+						if isP, v := peekVal(x.Args[0]); isP {
+							return lic{ok: true, v: v}
+						}
+					}
+				}
+			}
+			return lic{}
+		}
+		g := cfg.New(fd.Body, func(*ast.CallExpr) bool { return true })
+		type loc struct {
+			b *cfg.Block
+			i int
+		}
+		locate := func(nd ast.Node) (loc, bool) {
+			var best loc
+			var bestLen token.Pos = -1
+			for _, b := range g.Blocks {
+				for i, x := range b.Nodes {
+					if x.Pos() <= nd.Pos() && nd.End() <= x.End() {
+						if l := x.End() - x.Pos(); bestLen < 0 || l < bestLen {
+							best, bestLen = loc{b, i}, l
+						}
+					}
+				}
+			}
+			return best, bestLen >= 0
+		}
+		// is there a path from `from` (exclusive) to `to` (exclusive of to itself) that crosses a node satisfying hit,
+		// never crossing a node satisfying stop (checked before hit)
+		pathCrossing := func(from, to loc, hit, stop func(ast.Node) bool) bool {
+			needHit := hit != nil
+			if hit == nil {
+				hit = func(ast.Node) bool { return false }
+			}
+			type st struct {
+				b   *cfg.Block
+				i   int
+				hit bool
+			}
+			seen := map[[3]int]bool{}
+			var stack []st
+			stack = append(stack, st{from.b, from.i + 1, false})
+			for len(stack) > 0 {
+				s := stack[len(stack)-1]
+				stack = stack[:len(stack)-1]
+				h := s.hit
+				dead := false
+				for i := s.i; i < len(s.b.Nodes); i++ {
+					if s.b == to.b && i == to.i {
+						if h || !needHit {
+							return true
+						}
+						dead = true
+						break
+					}
+					nd := s.b.Nodes[i]
+					if stop(nd) {
+						dead = true
+						break
+					}
+					if hit(nd) {
+						h = true
+					}
+				}
+				if dead {
+					continue
+				}
+				for _, nx := range s.b.Succs {
+					k := [3]int{int(nx.Index), 0, 0}
+					if h {
+						k[1] = 1
+					}
+					if seen[k] {
+						continue
+					}
+					seen[k] = true
+					stack = append(stack, st{nx, 0, h})
+				}
+			}
+			return false
+		}
+		terminates := func(b *ast.BlockStmt) bool {
+			if len(b.List) == 0 {
+				return false
+			}
+			switch b.List[len(b.List)-1].(type) {
+			case *ast.ReturnStmt, *ast.BranchStmt:
+				return true
+			}
+			return false
+		}
+		walkStack(fd.Body, func(m ast.Node, stack []ast.Node) bool {
+			var stepBy ast.Expr
+			switch x := m.(type) {
+			case *ast.IncDecStmt:
+				if !isOffset(x.X) || x.Tok != token.INC {
+					return true
+				}
+			case *ast.AssignStmt:
+				if x.Tok != token.ADD_ASSIGN || len(x.Lhs) != 1 || !isOffset(x.Lhs[0]) {
+					return true
+				}
+				stepBy = x.Rhs[0]
+			default:
+				return true
+			}
+			n++
+			key := fmt.Sprintf("lexadvance:%s:%s", declKey(fd), c.Src(m))
+			if declKey(fd) == "lexer.next" {
+				// next() reads l.source[l.offset] itself before stepping: the read is the test (callers check for end of input)
+				r.OK(key, m.Pos(), "next reads the byte at the offset before stepping over it")
+				return true
+			}
+			if stepBy != nil {
+				if why, ok := lexAdvanceReviewed[declKey(fd)+":"+c.Src(m)]; ok {
+					r.OK(key, m.Pos(), "enumerated — %s", why)
+					return true
+				}
+				// size - 1 with size from utf8.DecodeRuneInString(l.source[l.offset-1:])
+				good := false
+				if b, ok := unparen(stepBy).(*ast.BinaryExpr); ok && b.Op == token.SUB {
+					if k, ok := constInt(info, b.Y); ok && k == 1 {
+						if id, ok := unparen(b.X).(*ast.Ident); ok {
+							obj := info.ObjectOf(id)
+							ast.Inspect(fd.Body, func(q ast.Node) bool {
+								as, ok := q.(*ast.AssignStmt)
+								if !ok || len(as.Lhs) != 2 || len(as.Rhs) != 1 {
+									return true
+								}
+								if lid, ok := as.Lhs[1].(*ast.Ident); !ok || info.ObjectOf(lid) != obj {
+									return true
+								}
+								call, ok := unparen(as.Rhs[0]).(*ast.CallExpr)
+								if !ok || !strings.HasPrefix(calleeName(info, call), "utf8.DecodeRune") || len(call.Args) != 1 {
+									return true
+								}
+								if se, ok := unparen(call.Args[0]).(*ast.SliceExpr); ok && se.High == nil && strings.HasSuffix(types.ExprString(se.X), ".source") {
+									if lb, ok := unparen(se.Low).(*ast.BinaryExpr); ok && lb.Op == token.SUB && isOffset(lb.X) {
+										if k, ok := constInt(info, lb.Y); ok && k == 1 {
+											good = true
+										}
+									}
+								}
+								return true
+							})
+						}
+					}
+				}
+				r.Check(good, key, m.Pos(), "%s advances by %s: the size utf8 decoded from the source at the byte next() consumed, minus that byte: %v (any other amount — the length of a re-encoded rune, say, which is 3 for an invalid byte — can pass the end of the source)", declKey(fd), c.Src(stepBy), good)
+				return true
+			}
+			// the nearest licensing test on the way up
+			var test ast.Expr
+			var lv types.Object
+			for i := len(stack) - 1; i >= 0 && test == nil; i-- {
+				var child ast.Node = m
+				if i+1 < len(stack) {
+					child = stack[i+1]
+				}
+				switch a := stack[i].(type) {
+				case *ast.IfStmt:
+					if child == ast.Node(a.Body) {
+						if l := licensed(a.Cond, true); l.ok {
+							test, lv = a.Cond, l.v
+						}
+					} else if a.Else != nil && child == ast.Node(a.Else) {
+						if l := licensed(a.Cond, false); l.ok {
+							test, lv = a.Cond, l.v
+						}
+					}
+				case *ast.ForStmt:
+					if a.Cond != nil && child == ast.Node(a.Body) {
+						if l := licensed(a.Cond, true); l.ok {
+							test, lv = a.Cond, l.v
+						}
+					}
+				case *ast.CaseClause:
+					if i < 2 {
+						break
+					}
+					sw, ok := stack[i-2].(*ast.SwitchStmt)
+					if !ok || a.List == nil {
+						break
+					}
+					inBody := false
+					for _, st := range a.Body {
+						if ast.Node(st) == child {
+							inBody = true
+						}
+					}
+					if !inBody {
+						break
+					}
+					if sw.Tag == nil {
+						all := true
+						var v types.Object
+						for _, e := range a.List {
+							l := licensed(e, true)
+							if !l.ok {
+								all = false
+							}
+							v = l.v
+						}
+						if all {
+							test, lv = a.List[0], v
+						}
+					} else if isP, v := peekVal(sw.Tag); isP {
+						all := true
+						for _, e := range a.List {
+							if k, ok := constInt(info, e); !ok || k == 0 {
+								all = false
+							}
+						}
+						if all {
+							test, lv = sw.Tag, v
+						}
+					}
+				}
+				// earlier statements of the same list that leave unless a licensing condition holds
+				if test == nil {
+					var list []ast.Stmt
+					switch b := stack[i].(type) {
+					case *ast.BlockStmt:
+						list = b.List
+					case *ast.CaseClause:
+						list = b.Body
+					}
+					for _, st := range list {
+						if ast.Node(st) == child {
+							break
+						}
+						if ifs, ok := st.(*ast.IfStmt); ok && ifs.Else == nil && terminates(ifs.Body) {
+							if l := licensed(ifs.Cond, false); l.ok {
+								test, lv = ifs.Cond, l.v // the latest such statement wins
+							}
+						}
+					}
+				}
+			}
+			if test == nil {
+				r.Bad(key, m.Pos(), "%s steps over a byte without a test that it exists: no enclosing condition compares l.peek() (or a variable holding it) with a non-zero constant, applies a character class that rejects 0, or tests for the end of the input — at the end of the source the offset leaves it, and the next slice of the source panics", declKey(fd))
+				return true
+			}
+			tl, ok1 := locate(test)
+			il, ok2 := locate(m)
+			if !ok1 || !ok2 {
+				r.Undecided(key, m.Pos(), "the test or the step was not found in the control-flow graph")
+				return true
+			}
+			isThis := func(nd ast.Node) bool { return nd.Pos() <= m.Pos() && m.End() <= nd.End() && nd.End()-nd.Pos() == m.End()-m.Pos() }
+			isTest := func(nd ast.Node) bool { return nd == tl.b.Nodes[tl.i] }
+			// (1) nothing moves between the test and the step
+			if pathCrossing(tl, il, func(nd ast.Node) bool { return !isThis(nd) && moves(nd) }, isTest) {
+				r.Bad(key, m.Pos(), "%s: between the test `%s` and this step the offset may already have moved: the test no longer speaks about the byte stepped over", declKey(fd), c.Src(test))
+				return true
+			}
+			// (2) a peek variable still holds the byte at the current position when it is tested
+			if lv != nil {
+				stale := false
+				isAssign := func(nd ast.Node) bool {
+					for _, a := range peekAssign[lv] {
+						if nd.Pos() <= a.Pos() && a.End() <= nd.End() {
+							return true
+						}
+					}
+					return false
+				}
+				for _, b := range g.Blocks {
+					for i, nd := range b.Nodes {
+						if !moves(nd) || isAssign(nd) {
+							continue
+						}
+						// a movement from which the test is reachable without re-reading the variable
+						if pathCrossing(loc{b, i}, tl, nil, isAssign) {
+							stale = true
+						}
+					}
+				}
+				if stale {
+					r.Bad(key, m.Pos(), "%s: the test `%s` reads %s, which may hold the byte of an earlier position (the offset moved after %s was read)", declKey(fd), c.Src(test), lv.Name(), lv.Name())
+					return true
+				}
+			}
+			r.OK(key, m.Pos(), "licensed by `%s`", c.Src(test))
+			return true
+		})
+	}
+	if n == 0 {
+		r.Undecided("lexadvance:census", token.NoPos, "no step of the lexer offset found")
+	}
+}
+
+// ---------------------------------------------------------------------------------------------------------------------
+// C18: module lookup candidates and raw search paths; C14: byte positions by scanning only.
+
+func init() {
+	reg(&Rule{ID: "R-C18-candidates", Props: []string{"C18"}, Floor: 2,
+		Doc: "lookupModule tries, per search directory, Join(dir, name+ext) and then Join(dir, name, Base(name)+ext), in this order: the second candidate's file name is the base name of the module name, not the name itself (a nested name such as util/str would otherwise be looked for at util/str/util/str.jq)",
+		Run: ruleCandidates})
+	reg(&Rule{ID: "R-C18-rawpaths", Props: []string{"C18"}, Floor: 1,
+		Doc: "the search paths given to the module loader are the strings the user (or the default list) supplied: nothing on the way from the option to NewModuleLoader normalises them lexically (filepath.Clean/Join/Abs collapse `$ORIGIN/../lib` to `lib` before resolvePath can expand `$ORIGIN/` and `~/`)",
+		Run: ruleRawPaths})
+	reg(&Rule{ID: "R-C14-bytepos", Props: []string{"C14"}, Floor: 0,
+		Doc: "no string is cut at a position computed by multiplication: a code point position becomes a byte position only by scanning the string (an assumed fixed width per code point is wrong for every mixed string whose average width happens to be integral)",
+		Run: ruleBytePos})
+	addDecided("C18", " The two lookup candidates have the stated shape (R-C18-candidates); search paths reach the loader unnormalised (R-C18-rawpaths); alias prefixing is unconditional (R-C18-modscope).")
+	addDecided("C14", " No string is cut at a multiplied position (R-C14-bytepos).")
+}
+
+func ruleCandidates(c *Ctx, r *Rep) {
+	info := c.Gojq.TypesInfo
+	fd := c.Decl(c.Gojq, "moduleLoader.lookupModule")
+	if fd == nil || fd.Type.Params == nil || len(fd.Type.Params.List) == 0 {
+		r.Undecided("candidates:anchor", token.NoPos, "moduleLoader.lookupModule not found")
+		return
+	}
+	nameObj := info.Defs[fd.Type.Params.List[0].Names[0]]
+	var joins []*ast.CallExpr
+	ast.Inspect(fd.Body, func(m ast.Node) bool {
+		if rs, ok := m.(*ast.RangeStmt); ok {
+			ast.Inspect(rs.Body, func(q ast.Node) bool {
+				if call, ok := q.(*ast.CallExpr); ok && calleeName(info, call) == "filepath.Join" {
+					joins = append(joins, call)
+				}
+				return true
+			})
+			return false
+		}
+		return true
+	})
+	if len(joins) != 2 {
+		r.Undecided("candidates:joins", fd.Pos(), "%d filepath.Join calls in the search loop of lookupModule, expected the two candidates", len(joins))
+		return
+	}
+	isName := func(e ast.Expr) bool { id, ok := unparen(e).(*ast.Ident); return ok && info.ObjectOf(id) == nameObj }
+	// a local assigned exactly once stands for its definition
+	resolve := func(e ast.Expr) ast.Expr {
+		id, ok := unparen(e).(*ast.Ident)
+		if !ok {
+			return e
+		}
+		obj := info.ObjectOf(id)
+		var def ast.Expr
+		cnt := 0
+		ast.Inspect(fd.Body, func(q ast.Node) bool {
+			if as, ok := q.(*ast.AssignStmt); ok && len(as.Lhs) == len(as.Rhs) {
+				for i, l := range as.Lhs {
+					if lid, ok := l.(*ast.Ident); ok && info.ObjectOf(lid) == obj {
+						cnt++
+						def = as.Rhs[i]
+					}
+				}
+			}
+			return true
+		})
+		if cnt == 1 {
+			return def
+		}
+		return e
+	}
+	// name + ext
+	nameExt := func(e ast.Expr) bool {
+		b, ok := unparen(resolve(e)).(*ast.BinaryExpr)
+		return ok && b.Op == token.ADD && isName(b.X)
+	}
+	baseExt := func(e ast.Expr) (bool, string) {
+		b, ok := unparen(resolve(e)).(*ast.BinaryExpr)
+		if !ok || b.Op != token.ADD {
+			return false, ""
+		}
+		call, ok := unparen(b.X).(*ast.CallExpr)
+		if !ok || len(call.Args) != 1 || !isName(call.Args[0]) {
+			return false, ""
+		}
+		return true, calleeName(info, call)
+	}
+	first := len(joins[0].Args) == 2 && nameExt(joins[0].Args[1])
+	r.Check(first, "candidates:first", joins[0].Pos(), "the first candidate is Join(dir, name+ext): %v", first)
+	second := false
+	fn := ""
+	if len(joins[1].Args) == 3 && isName(joins[1].Args[1]) {
+		second, fn = baseExt(joins[1].Args[2])
+	}
+	switch {
+	case second && (fn == "filepath.Base" || fn == "path.Base"):
+		r.OK("candidates:second", joins[1].Pos(), "the second candidate is Join(dir, name, %s(name)+ext)", fn)
+	case second:
+		r.Undecided("candidates:second", joins[1].Pos(), "the file name of the second candidate is %s(name)+ext: not a function this rule knows to return the base name", fn)
+	default:
+		r.Bad("candidates:second", joins[1].Pos(), "the second candidate is `%s`, not Join(dir, name, Base(name)+ext): for a module name with a slash (import \"util/str\") the directory form is looked for at the wrong place", c.Src(joins[1]))
+	}
+}
+
+func ruleRawPaths(c *Ctx, r *Rep) {
+	p := c.Cli
+	info := p.TypesInfo
+	n := 0
+	for _, fd := range c.Decls(p) {
+		ast.Inspect(fd.Body, func(m ast.Node) bool {
+			call, ok := m.(*ast.CallExpr)
+			if !ok || calleeName(info, call) != "gojq.NewModuleLoader" || len(call.Args) != 1 {
+				return true
+			}
+			n++
+			// backward slice of the argument within the function: every call it passes through
+			seen := map[types.Object]bool{}
+			var bad []string
+			var slice func(e ast.Expr)
+			slice = func(e ast.Expr) {
+				ast.Inspect(e, func(q ast.Node) bool {
+					switch x := q.(type) {
+					case *ast.CallExpr:
+						nm := calleeName(info, x)
+						if strings.HasPrefix(nm, "filepath.") || strings.HasPrefix(nm, "path.") {
+							bad = append(bad, nm)
+						}
+					case *ast.Ident:
+						o, ok := info.Uses[x].(*types.Var)
+						if !ok || o.IsField() || seen[o] {
+							return true
+						}
+						seen[o] = true
+						ast.Inspect(fd.Body, func(w ast.Node) bool {
+							switch y := w.(type) {
+							case *ast.AssignStmt:
+								for i, lhs := range y.Lhs {
+									id, ok := unparen(lhs).(*ast.Ident)
+									if ix, isIx := unparen(lhs).(*ast.IndexExpr); isIx {
+										id, ok = unparen(ix.X).(*ast.Ident)
+									}
+									if ok && info.ObjectOf(id) == o {
+										slice(y.Rhs[min(i, len(y.Rhs)-1)])
+									}
+								}
+							case *ast.RangeStmt:
+								// for i, p := range paths { paths[i] = f(p) } is caught by the index assignment above
+							}
+							return true
+						})
+					}
+					return true
+				})
+			}
+			slice(call.Args[0])
+			sort.Strings(bad)
+			r.Check(len(bad) == 0, "rawpaths:"+declKey(fd), call.Pos(), "the search paths handed to NewModuleLoader in %s pass through no lexical path function on the way from the options: %v %v", declKey(fd), len(bad) == 0, bad)
+			return true
+		})
+	}
+	if n == 0 {
+		r.Undecided("rawpaths:census", token.NoPos, "no call of gojq.NewModuleLoader in the command")
+	}
+}
+
+func ruleBytePos(c *Ctx, r *Rep) {
+	info := c.Gojq.TypesInfo
+	n := 0
+	for _, fd := range c.Decls(c.Gojq) {
+		file := c.PhysFile(fd.Pos())
+		if file == "parser.go" || file == "builtin.go" {
+			continue
+		}
+		// variables assigned from a product
+		prod := map[types.Object]bool{}
+		hasMul := func(e ast.Expr) bool {
+			f := false
+			ast.Inspect(e, func(q ast.Node) bool {
+				switch b := q.(type) {
+				case *ast.IndexExpr, *ast.CallExpr:
+					return false // the value of an element or of a call is not the product that selected it
+				case *ast.BinaryExpr:
+					if b.Op == token.MUL {
+						if tv, ok := info.Types[b]; !ok || tv.Value == nil {
+							f = true
+						}
+					}
+				}
+				return true
+			})
+			return f
+		}
+		ast.Inspect(fd.Body, func(m ast.Node) bool {
+			if as, ok := m.(*ast.AssignStmt); ok && len(as.Lhs) == len(as.Rhs) {
+				for i, rhs := range as.Rhs {
+					if hasMul(rhs) || as.Tok == token.MUL_ASSIGN {
+						if id, ok := as.Lhs[i].(*ast.Ident); ok {
+							if o := info.ObjectOf(id); o != nil {
+								prod[o] = true
+							}
+						}
+					}
+				}
+			}
+			return true
+		})
+		ast.Inspect(fd.Body, func(m ast.Node) bool {
+			se, ok := m.(*ast.SliceExpr)
+			if !ok {
+				return true
+			}
+			if b, ok := info.TypeOf(se.X).Underlying().(*types.Basic); !ok || b.Info()&types.IsString == 0 {
+				return true
+			}
+			for _, bnd := range []ast.Expr{se.Low, se.High} {
+				if bnd == nil {
+					continue
+				}
+				mul := hasMul(bnd)
+				ast.Inspect(bnd, func(q ast.Node) bool {
+					if id, ok := q.(*ast.Ident); ok && prod[info.ObjectOf(id)] {
+						mul = true
+					}
+					return true
+				})
+				if mul {
+					n++
+					r.Bad("bytepos:"+declKey(fd)+":"+c.Src(se), se.Pos(), "%s cuts the string %s at `%s`, a position obtained by multiplication: an index counted in code points times an assumed width is a byte position only for strings of uniform width (\"a😀b\" has 6 bytes for 3 code points)", declKey(fd), c.Src(se.X), c.Src(bnd))
+				}
+			}
+			return true
+		})
+	}
+	if n == 0 {
+		r.OK("bytepos:none", token.NoPos, "no string is cut at a multiplied position")
+	}
+}
